@@ -11,6 +11,7 @@ CONSTANTS
 INVARIANT TypeOK
 INVARIANT Symmetric
 INVARIANT ZeroDiagonal
+INVARIANT ClassesSymmetric
 INVARIANT ColumnOrderFree
 INVARIANT ShortcutSound
 INVARIANT ShortcutKeepsComputed
